@@ -1343,9 +1343,20 @@ def median(a):
     return (xs[n // 2 - 1] + xs[n // 2]) / 2
 
 
-def diff(a, n=1, axis=-1):
+def diff(a, n=1, axis=-1, prepend=None, append=None):
     if n != 1:
         raise NotModelled('diff n != 1')
+    a = asarray(a)
+    if prepend is not None or append is not None:
+        if a.ndim != 1:
+            raise NotModelled('diff with prepend/append on %d-d' % a.ndim)
+        parts = []
+        if prepend is not None:
+            parts.append(atleast_1d(asarray(prepend)))
+        parts.append(a)
+        if append is not None:
+            parts.append(atleast_1d(asarray(append)))
+        a = concatenate(parts)
     return _along(a, axis, lambda xs: [xs[i + 1] - xs[i]
                                        for i in range(len(xs) - 1)])
 
